@@ -37,13 +37,16 @@ OBLIGATIONS = [
              "recoverable or not, and equals highest+1 (1 for the initial publish)",
         outside="the rest of publish (C47); that the survey saw every existing version (C10/C11 updater logic)"),
     chx("read_keeps_querying", "C11_h", "h_read_keeps_querying", timeout={"quick": 150, "thorough": 1500},
-        cases={"quick": [_b(2, 2, 0, 2, -1, 0, dups=True), dict(_b(1, 2, 0, 2, -1, 0, dups=True), gates=True, _label="1v-gates")],
-               "thorough": [_b(2, 3, 1, 2, -1, 0, dups=True, s0=s) for s in (1, 2, 3)] + [_b(2, 2, 0, 3, -1, 0, dups=True, dmax=2)]
+        cases={"quick": [_b(2, 2, 0, 3, -2, 0, dups=False), _b(2, 2, 0, 2, -1, 0, dups=True, s0=1),
+                         dict(_b(1, 2, 0, 2, -1, 0, dups=True), gates=True, _label="1v-gates")],
+               "thorough": [_b(2, 3, 1, 2, -1, 0, dups=True, s0=s) for s in (1, 2, 3)] + [_b(2, 2, 0, 3, -2, 0, dups=True, dmax=2)]
+               + [_b(2, 2, 1, 4, -3, 0, dups=False, s0=s) for s in (1, 2)]
                + [dict(_b(2, 2, 0, 2, -1, 0, dups=True), gates=True, _label="2v-gates")]},
         desc="ServermapUpdater._check_for_done in MODE_READ, one decision on a fake updater over a real ServerMap (<= 2 versions, copies of a "
              "share on several servers), with symbolic 'queries outstanding', 'extra servers left', 'must-query pending', completed/planned "
              "query counts: it finishes only if nobody is left to ask, or a recoverable version was seen AND no unrecoverable version with a "
              "higher seqnum than every recoverable one is in sight AND the planned number of servers answered; otherwise it asks more "
-             "servers (recoverability counts DISTINCT share numbers); it waits while must-query servers are pending",
+             "servers - also when the servers left to ask are fewer than the shares still missing (k=3: one share found, one server unheard; a "
+             "server can hold several shares) - (recoverability counts DISTINCT share numbers); it waits while must-query servers are pending",
         outside="the other modes; _send_more_queries itself and the order in which servers are asked; that the loop terminates"),
 ]
